@@ -44,4 +44,15 @@ def b4():
     return "b4-directory-index", D(ents, tag="root"), {}
 
 
-ALL = [b0, b1, b2, b4, b3]
+def b5():
+    """symlink targets and names around the limits of the tar header fields (100 / 155 / 255 bytes): the tar writer of sqfs2tar switches representation there"""
+    def tgt(n):
+        return (b"t" * 9 + b"/") * (n // 10) + b"e" * (n % 10)
+    ents = [(b"l099", L(tgt(99), tag="l099"), None), (b"l100", L(tgt(100), tag="l100"), None), (b"l101", L(tgt(101), tag="l101"), None),
+            (b"l300", L(tgt(300), ext=True, xattrs={b"user.a": b"1"}, tag="l300"), None), (b"l400", L(tgt(400), tag="l400"), None),
+            (b"n" * 100, F(b"name of 100 bytes", tag="n100"), None), (b"p" * 255, Node("fifo", 0o600, tag="n255"), None),
+            (b"tgtfile", F(b"x", tag="tgtfile"), None)]
+    return "b5-long-symlink-targets-and-names", D(sorted(ents), tag="root"), {}
+
+
+ALL = [b0, b1, b2, b4, b5, b3]
